@@ -33,6 +33,7 @@ inductive Err where
   | tableError     -- TableFileNotFound from `product.getTable()` (declared table file missing on disk)
   | isSetup        -- EupsException "Product ... is already setup; specify force to proceed"
   | noPermission   -- EupsException "You do not have permission to undeclare products from ..."
+  | tagNotFound    -- `eups remove -t TAG product`: "Failed to lookup tag TAG for product ..." (exit status 2)
 deriving Repr, DecidableEq
 
 inductive Outcome where
@@ -148,5 +149,17 @@ def removeWith (s : State) (uses : UsesOutcome) (name ver : Str) (recursive chec
 def remove (s : State) (name ver : Str) (recursive check force : Bool) (defaultName : Option Str) :
     Outcome × State × List Prod :=
   removeWith s (usesInfo s.db s.db.fuel) name ver recursive check force defaultName
+
+/-! ### `RemoveCmd.execute` (python/eups/cmd.py): the `-t TAG` forms of the command line -/
+
+/-- `eups remove -t TAG product` (no version): the version of the product that carries the tag is removed -/
+def removeByTag (s : State) (uses : UsesOutcome) (name tag : Str) (recursive check force : Bool)
+    (defaultName : Option Str) : Outcome × State × List Prod :=
+  match s.tags.find? (fun t => t.1 == name && t.2.1 == tag) with
+  | none => (.failed .tagNotFound, s, [])
+  | some t => removeWith s uses name t.2.2 recursive check force defaultName
+
+/-- `eups remove -t TAG` (no product): the tag is taken off every product; nothing is undeclared or deleted -/
+def untag (s : State) (tag : Str) : State := { s with tags := s.tags.filter fun t => t.2.1 != tag }
 
 end EupsModel.Remove
